@@ -213,10 +213,25 @@ Proof.
     intros k' V'. destruct (ifl k' V') as (A & B & C). split; [exact A|]. split; [|exact C].
     destruct (Z.eq_dec k' k) as [->|Hne]; [rewrite nthz_updz_same by vl; exact A | rewrite nthz_updz_other by congruence; exact B].
   - (* QueryM *)
-    cbn [fst snd]. split; [|constructor; assumption]. f_equal. destruct (valid (d_methods d) k) eqn:V; [apply im, V|].
-    rewrite !nthz_invalid; [reflexivity | |]; (erewrite valid_same_length; [exact V | congruence]).
-  - cbn [fst snd]. split; [|constructor; assumption]. f_equal. destruct (valid (d_fields d) k) eqn:V; [apply ifl, V|].
-    rewrite !nthz_invalid; [reflexivity | |]; (erewrite valid_same_length; [exact V | congruence]).
+    destruct (valid (d_methods d) k) eqn:V; cbn [negb].
+    2:{ cbn [fst snd]. split; [|constructor; assumption]. f_equal. symmetry. apply nthz_invalid.
+        erewrite valid_same_length; [exact V | congruence]. }
+    destruct (im k V) as (A & B & C).
+    destruct (nthz (em_loaded s) k false); cbn [fst snd]; [split; [f_equal; exact B | constructor; assumption]|].
+    split; [f_equal; exact A|].
+    constructor; cbn [hooks mid_name em_name fid_name ef_name cls_name]; try (rewrite ?updz_length; assumption).
+    intros k' V'. destruct (im k' V') as (A' & B' & C'). split; [exact A'|]. split; [|exact C'].
+    destruct (Z.eq_dec k' k) as [->|Hne]; [rewrite nthz_updz_same by vl; exact A' | rewrite nthz_updz_other by congruence; exact B'].
+  - (* QueryF *)
+    destruct (valid (d_fields d) k) eqn:V; cbn [negb].
+    2:{ cbn [fst snd]. split; [|constructor; assumption]. f_equal. symmetry. apply nthz_invalid.
+        erewrite valid_same_length; [exact V | congruence]. }
+    destruct (ifl k V) as (A & B & C).
+    destruct (nthz (ef_loaded s) k false); cbn [fst snd]; [split; [f_equal; exact B | constructor; assumption]|].
+    split; [f_equal; exact A|].
+    constructor; cbn [hooks mid_name em_name fid_name ef_name cls_name]; try (rewrite ?updz_length; assumption).
+    intros k' V'. destruct (ifl k' V') as (A' & B' & C'). split; [exact A'|]. split; [|exact C'].
+    destruct (Z.eq_dec k' k) as [->|Hne]; [rewrite nthz_updz_same by vl; exact A' | rewrite nthz_updz_other by congruence; exact B'].
   - cbn [fst snd]. split; [|constructor; assumption]. f_equal. destruct (valid (d_classes d) c) eqn:V; [apply ic, V|].
     rewrite !nthz_invalid; [reflexivity | |]; (erewrite valid_same_length; [exact V | congruence]).
   - cbn [fst snd]. split; [|constructor; assumption]. f_equal. destruct (valid (d_consts d) j) eqn:V; [apply is_, V|].
